@@ -77,7 +77,12 @@ CheckWeq(e) ==
     Need(e.truth \in {"T", "F"}, "C09", <<"evaluation with a cyclic resolver", e.truth>>)
     \o (IF e.truth \in {"T", "F"} THEN Need(e.truth = B(WildcardEq(e.rec, e.path, e.target, e.db)), "C07", <<"*== over the ref chain", e.truth>>) ELSE <<>>)
 
+\* a relationship term (`containedBy? @x`) evaluated with the Project Haystack defs over a caller-supplied resolver whose records
+\* form chains, rings and tails into rings, with and without `id` tags: what it answers is not specified here, that it answers is
+CheckRel(e) == Need(e.truth \in {"T", "F"}, "C09", <<"evaluation of a relationship term with a cyclic resolver", e.truth>>)
+
 Check(e) == CASE e.op = "filter.parse" -> CheckParse(e)
+              [] e.op = "filter.rel" -> CheckRel(e)
               [] e.op = "filter.text" -> CheckText(e)
               [] e.op = "filter.eval" -> CheckEval(e)
               [] e.op = "filter.grid" -> CheckGrid(e)
